@@ -467,6 +467,9 @@ func (l *mapLoop) effects(kinds func(ssa.Instruction) core.KindSet, wm *writeMod
 				e := loopEffect{kind: "store", in: in, target: outer, desc: "store to outer " + describe(outer), sensitive: true}
 				if _, isC := x.Val.(*ssa.Const); isC {
 					e.sensitive, e.why = false, "constant flag"
+				} else if lazyInit(x) {
+					// if loc == nil { loc = make(..) }: whichever entry comes first stores an equal empty container
+					e.sensitive, e.why = false, "lazy creation of an empty container behind its nil test"
 				} else if bo, ok := x.Val.(*ssa.BinOp); ok {
 					// x = x + n
 					if u, ok := bo.X.(*ssa.UnOp); ok && u.Op == token.MUL && u.X == x.Addr && (bo.Op == token.ADD || bo.Op == token.OR || bo.Op == token.MUL) {
@@ -803,4 +806,55 @@ func rootIsGlobalOrFree(v ssa.Value) bool {
 		}
 	}
 	return false
+}
+
+// lazyInit: st stores a fresh empty container (make) into a location in the block entered on the nil edge of a test
+// of that same location: `if x.m == nil { x.m = make(map..) }`.
+func lazyInit(st *ssa.Store) bool {
+	switch st.Val.(type) {
+	case *ssa.MakeMap, *ssa.MakeSlice:
+	default:
+		return false
+	}
+	same := func(a, b ssa.Value) bool {
+		if a == b {
+			return true
+		}
+		fa, okA := a.(*ssa.FieldAddr)
+		fb, okB := b.(*ssa.FieldAddr)
+		return okA && okB && fa.Field == fb.Field && core.Strip(fa.X) == core.Strip(fb.X)
+	}
+	b := st.Block()
+	for _, p := range b.Preds {
+		ifi := core.IfOf(p)
+		if ifi == nil {
+			return false
+		}
+		f := core.CondFact(ifi.Cond)
+		if f.Kind != core.FNil {
+			return false
+		}
+		bo, ok := ifi.Cond.(*ssa.BinOp)
+		if !ok {
+			return false
+		}
+		var tested ssa.Value
+		for _, side := range []ssa.Value{bo.X, bo.Y} {
+			if u, ok := side.(*ssa.UnOp); ok && u.Op == token.MUL {
+				tested = u.X
+			}
+		}
+		if tested == nil || !same(tested, st.Addr) {
+			return false
+		}
+		// the store's block is the successor on which the location is nil
+		nilEdge := 0
+		if f.Negated {
+			nilEdge = 1
+		}
+		if p.Succs[nilEdge] != b {
+			return false
+		}
+	}
+	return len(b.Preds) > 0
 }
